@@ -460,7 +460,7 @@ func checkWalkDirCallbacks(c *Check, r *Rule) {
 				return true
 			}
 			fn := Callee(info, call)
-			if fn == nil || fn.Name() != "WalkDir" || fn.Pkg() == nil || (fn.Pkg().Path() != "path/filepath" && fn.Pkg().Path() != "io/fs") {
+			if fn == nil || !nameIs(fn, "WalkDir") || fn.Pkg() == nil || (fn.Pkg().Path() != "path/filepath" && fn.Pkg().Path() != "io/fs") {
 				return true
 			}
 			fl, ok := call.Args[1].(*ast.FuncLit)
